@@ -155,6 +155,10 @@ func (s *Server) handleChannel(ctx context.Context, sshConn gossh.Conn,
 
 	if err := s.handleRequests(ctx, sshConn, requests, channel, user); err != nil {
 		dlog.Server.Error(user, err)
+		// Nobody serves this channel's requests any more. Keep taking them off
+		// the queue: the connection's reader blocks on a full queue and would
+		// then never notice that the connection ended (its slot stayed taken).
+		go gossh.DiscardRequests(requests)
 		sshConn.Close()
 	}
 }
